@@ -1,0 +1,4 @@
+// Package verifhook provides named hook points which are used by external
+// verification tooling to widen goroutine schedules. The hooks do nothing
+// unless the package is built with the build tag `verif`.
+package verifhook
